@@ -188,7 +188,7 @@ def step (line : String) : String :=
         | .err e => some (hexe q.path ++ "=" ++ errVariant e)
         | _ => none
       if r.services.any (fun (_, o) => match o with | .outOfModel => true | _ => false) then "out-of-model"
-      else s!"ok {r.loadErrors} {r.dropinErrors} [" ++ " ".intercalate svcs ++ "] [" ++ " ".intercalate errs ++ "]"
+      else s!"ok {r.loadErrors} {r.dropinErrors} [" ++ " ".intercalate svcs ++ "] [" ++ " ".intercalate errs ++ s!"] exit={r.exitStatus}"
   | "search" :: mode :: uid :: dirs =>
       -- directories as '/'-separated absolute paths below "/"; answer: the directories read below the admin tree
       let toDir (p : Str) : Srch.Dir := (Pth.splitSlash p).filter (fun x => !x.isEmpty)
